@@ -143,7 +143,7 @@ func (commander *Commander) exec(ctx context.Context, parameters Parameters, scr
 			WithPostings(result.Postings...).
 			WithMetadata(result.Metadata).
 			WithDate(script.Timestamp).
-			WithID(commander.nextTXID()).
+			WithID(commander.nextTXID(parameters.DryRun)).
 			WithReference(script.Reference)
 
 		log := logComputer(tx, result.AccountMetadata)
@@ -265,12 +265,16 @@ func (commander *Commander) chainLog(log *ledger.Log) *ledger.ChainedLog {
 	return commander.lastLog
 }
 
-func (commander *Commander) nextTXID() *big.Int {
+// nextTXID returns the id of the next transaction. A preview gets the id the
+// real write would get, without consuming it.
+func (commander *Commander) nextTXID(preview bool) *big.Int {
 	commander.mu.Lock()
 	defer commander.mu.Unlock()
 
 	ret := big.NewInt(0).Add(commander.lastTXID, big.NewInt(1))
-	commander.lastTXID = ret
+	if !preview {
+		commander.lastTXID = ret
+	}
 
 	return ret
 }
